@@ -7,6 +7,7 @@ the public side meets the point at infinity; `ckdPub_comm_iff_*` shows it is exa
 -/
 import BipVerif.Props.C04
 import BipVerif.Props.C12Group
+import BipVerif.Props.C12Ed
 
 namespace BipVerif.Props.C04Group
 open BipVerif BipVerif.Prim BipVerif.Model BipVerif.GroupModel
@@ -45,5 +46,58 @@ theorem master_derivePath_comm (c : CurveT) (hc : c.isEcdsa = true) (seed : Byte
     derivePathWith slip10ChildKey m.neuter p =
       (derivePathWith slip10ChildKey m p).map Node.neuter :=
   C04.master_derivePath_comm c (ecdsaLaw_of_isEcdsa _ hc).1 hc seed m hm p hl hz
+
+/-! ### BIP32-Ed25519 (Khovratovich–Law, Cardano Icarus/Ledger): `KholawLaw` is a theorem
+(`Props/C12Ed.lean`: the Edwards arithmetic of `Prim` is a group in which `B` has order `L`) -/
+
+/-- commutation under the explicit range hypothesis on the child's left scalar -/
+theorem kholaw_ckdPub_comm (nd : Node) (k : Bytes) (idx : Nat)
+    (hcur : nd.curve = .ed25519Kholaw) (hsch : nd.scheme = .kholaw)
+    (hp : nd.priv = some k) (hpub : pubOfPriv .ed25519Kholaw k = some nd.pub)
+    (hh : isHardened idx = false)
+    (hrange : Bytes.toNatLE (k.take 32) +
+        kholawPubScalar .kholaw
+          ((hmacSha512 nd.chainCode ([2] ++ nd.pub.drop 1 ++ kholawIndexBytes nd.scheme idx)).take 32)
+        < 2 ^ 255) :
+    kholawChildKey nd.neuter idx = (kholawChildKey nd idx).map Node.neuter :=
+  C04.kholaw_ckdPub_comm C12Ed.kholawLaw nd k idx hcur hsch hp hpub hh hrange
+
+/-- **success form, no hypothesis about the arithmetic and none about the size of `kL`**: whenever
+the private node has a non-hardened child `c`, the watch-only node has the child `c.neuter` -/
+theorem kholaw_ckdPub_comm_of_ok (nd : Node) (k : Bytes) (idx : Nat)
+    (hcur : nd.curve = .ed25519Kholaw) (hsch : nd.scheme = .kholaw)
+    (hp : nd.priv = some k) (hpub : pubOfPriv .ed25519Kholaw k = some nd.pub)
+    (hh : isHardened idx = false) (c : Node) (hc : kholawChildKey nd idx = .ok c) :
+    kholawChildKey nd.neuter idx = .ok c.neuter :=
+  C04.kholaw_ckdPub_comm_of_ok C12Ed.kholawLaw nd k idx hcur hsch hp hpub hh c hc
+
+/-- Electrum v1 (secp256k1): the public key of `(m + s) mod n` is `m·G + s·G`, on the executable
+functions -/
+theorem electrumV1_pub_secp256k1 (m s : ℕ) :
+    secp256k1.mulG ((m + s) % secp256k1.n) = secp256k1.add (secp256k1.mulG m) (secp256k1.mulG s) := by
+  have hG := C12Group.secp256k1_G_onCurve
+  refine WGroup.toM_injOn (WGroup.onCurve_mulG _ hG)
+    (WGroup.onCurve_add (WGroup.onCurve_mulG m hG) (WGroup.onCurve_mulG s hG)) ?_
+  rw [WGroup.toM_mulG _ hG, WGroup.toM_add (WGroup.onCurve_mulG m hG) (WGroup.onCurve_mulG s hG),
+    WGroup.toM_mulG m hG, WGroup.toM_mulG s hG]
+  exact GroupModel.electrumV1_pub WGroup.secp256k1_hasOrder m s
+
+/-- Monero sub-address keys on the executable Edwards functions: `D = B_spend + m·B` is the public
+key of `(b + m) mod L`, and `C = a·D` the public key of `a·((b+m) mod L) mod L` -/
+theorem monero_subaddr_ed (a b m : ℕ) :
+    edAdd (edMulBase b) (edMulBase m) = edMulBase ((b + m) % edL) ∧
+      edMul a (edAdd (edMulBase b) (edMulBase m)) = edMulBase (a * ((b + m) % edL) % edL) := by
+  have hb := EdGroup.edOnCurve_edMulBase b
+  have hm := EdGroup.edOnCurve_edMulBase m
+  have hadd := EdGroup.edAdd_correct hb hm
+  have h := GroupModel.monero_subaddr EdGroup.edB_hasOrder a b m
+  constructor
+  · refine EdGroup.toE_injOn hadd.1 (EdGroup.edOnCurve_edMulBase _) ?_
+    rw [hadd.2, EdGroup.toE_edMulBase, EdGroup.toE_edMulBase, EdGroup.toE_edMulBase]
+    exact h.1
+  · have hmul := EdGroup.edMul_correct a hadd.1
+    refine EdGroup.toE_injOn hmul.2 (EdGroup.edOnCurve_edMulBase _) ?_
+    rw [hmul.1, hadd.2, EdGroup.toE_edMulBase, EdGroup.toE_edMulBase, EdGroup.toE_edMulBase]
+    exact h.2
 
 end BipVerif.Props.C04Group
